@@ -2,21 +2,36 @@
  * source (length and every byte through the ghost index vg_k), capacity >= length,
  * representation invariant established.  Raw storage in, valid object out.
  *
- * .nonempty / .empty split: a zero-length construction leaves a malloc(0) block with
- * size == 0 (see known_findings/C07.mbuff.json, C07-mbuff-zero-alloc). */
+ * .nonempty / .empty split: a zero-length construction keeps a malloc(0) block with
+ * size == 0 that done()/del() never release (known_findings/C07.mbuff.json,
+ * C07-mbuff-zero-alloc).  The .empty units prove every other clause for that case; the
+ * .empty.inv units hold only the strict invariant clause (ENS_KF) and fail while the
+ * finding is open. */
 
 /*@unit
 name: mbuff.init
+define: U_INIT
 src: mbuff.c, obj.c
 enforce: spif_mbuff_init
-backend: sat
+backend: sat,z3
+timeout: 150
 */
 /*@unit
 name: mbuff.new
 define: U_NEW
 src: mbuff.c, obj.c
 enforce: spif_mbuff_new
-backend: sat
+backend: sat,z3
+timeout: 150
+funcs: spif_mbuff_init
+*/
+/*@unit
+name: mbuff.init_from_ptr.null
+define: U_FROM_PTR, U_NULLSRC
+src: mbuff.c, obj.c
+enforce: spif_mbuff_init_from_ptr
+backend: sat,z3
+timeout: 150
 funcs: spif_mbuff_init
 */
 /*@unit
@@ -29,18 +44,19 @@ timeout: 150
 */
 /*@unit
 name: mbuff.init_from_ptr.empty
-define: U_FROM_PTR, U_EMPTY
+define: U_FROM_PTR, U_EMPTY, U_NOT_KF
 src: mbuff.c, obj.c
 enforce: spif_mbuff_init_from_ptr
 backend: sat,z3
 timeout: 150
 */
 /*@unit
-name: mbuff.init_from_ptr.null
-define: U_FROM_PTR, U_NULLSRC
+name: mbuff.init_from_ptr.empty.inv
+define: U_FROM_PTR, U_EMPTY, U_ONLY_KF
 src: mbuff.c, obj.c
 enforce: spif_mbuff_init_from_ptr
-backend: sat
+backend: sat,z3
+timeout: 150
 */
 /*@unit
 name: mbuff.new_from_ptr.nonempty
@@ -53,7 +69,16 @@ funcs: spif_mbuff_init_from_ptr
 */
 /*@unit
 name: mbuff.new_from_ptr.empty
-define: U_NEW_FROM_PTR, U_EMPTY
+define: U_NEW_FROM_PTR, U_EMPTY, U_NOT_KF
+src: mbuff.c, obj.c
+enforce: spif_mbuff_new_from_ptr
+backend: sat,z3
+timeout: 150
+funcs: spif_mbuff_init_from_ptr
+*/
+/*@unit
+name: mbuff.new_from_ptr.empty.inv
+define: U_NEW_FROM_PTR, U_EMPTY, U_ONLY_KF
 src: mbuff.c, obj.c
 enforce: spif_mbuff_new_from_ptr
 backend: sat,z3
@@ -70,7 +95,15 @@ timeout: 150
 */
 /*@unit
 name: mbuff.init_from_buff.empty
-define: U_FROM_BUFF, U_EMPTY
+define: U_FROM_BUFF, U_EMPTY, U_NOT_KF
+src: mbuff.c, obj.c
+enforce: spif_mbuff_init_from_buff
+backend: sat,z3
+timeout: 150
+*/
+/*@unit
+name: mbuff.init_from_buff.empty.inv
+define: U_FROM_BUFF, U_EMPTY, U_ONLY_KF
 src: mbuff.c, obj.c
 enforce: spif_mbuff_init_from_buff
 backend: sat,z3
@@ -87,7 +120,16 @@ funcs: spif_mbuff_init_from_buff
 */
 /*@unit
 name: mbuff.new_from_buff.empty
-define: U_NEW_FROM_BUFF, U_EMPTY
+define: U_NEW_FROM_BUFF, U_EMPTY, U_NOT_KF
+src: mbuff.c, obj.c
+enforce: spif_mbuff_new_from_buff
+backend: sat,z3
+timeout: 150
+funcs: spif_mbuff_init_from_buff
+*/
+/*@unit
+name: mbuff.new_from_buff.empty.inv
+define: U_NEW_FROM_BUFF, U_EMPTY, U_ONLY_KF
 src: mbuff.c, obj.c
 enforce: spif_mbuff_new_from_buff
 backend: sat,z3
@@ -109,7 +151,7 @@ funcs: spif_mbuff_init_from_buff
 
 long w_len, w_size;
 
-#if !defined(U_NEW) && !defined(U_FROM_PTR) && !defined(U_NEW_FROM_PTR) && !defined(U_FROM_BUFF) && !defined(U_NEW_FROM_BUFF)
+#ifdef U_INIT
 spif_bool_t spif_mbuff_init(spif_mbuff_t self)
 __CPROVER_requires(__CPROVER_is_fresh(self, sizeof(*self)))
 __CPROVER_assigns(MBUFF_FRAME_INIT(self))
@@ -148,14 +190,15 @@ __CPROVER_requires(old == NULL)
 __CPROVER_requires(LEN_RANGE(len) && __CPROVER_is_fresh(old, (size_t) len))
 # endif
 __CPROVER_assigns(MBUFF_FRAME_INIT(self))
-__CPROVER_ensures(__CPROVER_return_value == TRUE)
-__CPROVER_ensures(MBUFF_POST(self))
-__CPROVER_ensures(self->parent.cls == SPIF_CLASS(__CPROVER_old(spif_mbuff_mbuffclass)))
+ENS(__CPROVER_return_value == TRUE)
+ENS_KF(MBUFF_POST(self))
+ENS(MBUFF_POST_ZEROBLOCK(self))
+ENS(self->parent.cls == SPIF_CLASS(__CPROVER_old(spif_mbuff_mbuffclass)))
 # ifdef U_NULLSRC
-__CPROVER_ensures(self->len == 0)
+ENS(self->len == 0)
 # else
-__CPROVER_ensures(self->len == len && self->size >= len)
-__CPROVER_ensures(!(vg_k < (size_t) len) || self->buff[vg_k] == old[vg_k])
+ENS(self->len == len && self->size >= len)
+ENS(!(vg_k < (size_t) len) || self->buff[vg_k] == old[vg_k])
 # endif
 ;
 void harness(void)
@@ -171,10 +214,11 @@ void harness(void)
 spif_mbuff_t spif_mbuff_new_from_ptr(spif_byteptr_t old, spif_memidx_t len)
 __CPROVER_requires(LEN_RANGE(len) && __CPROVER_is_fresh(old, (size_t) len))
 __CPROVER_assigns()
-__CPROVER_ensures(__CPROVER_is_fresh(__CPROVER_return_value, sizeof(*__CPROVER_return_value)))
-__CPROVER_ensures(MBUFF_POST(__CPROVER_return_value))
-__CPROVER_ensures(__CPROVER_return_value->len == len && __CPROVER_return_value->size >= len)
-__CPROVER_ensures(!(vg_k < (size_t) len) || __CPROVER_return_value->buff[vg_k] == old[vg_k])
+ENS(__CPROVER_is_fresh(__CPROVER_return_value, sizeof(*__CPROVER_return_value)))
+ENS_KF(MBUFF_POST(__CPROVER_return_value))
+ENS(MBUFF_POST_ZEROBLOCK(__CPROVER_return_value))
+ENS(__CPROVER_return_value->len == len && __CPROVER_return_value->size >= len)
+ENS(!(vg_k < (size_t) len) || __CPROVER_return_value->buff[vg_k] == old[vg_k])
 ;
 void harness(void)
 {
@@ -202,11 +246,12 @@ spif_bool_t spif_mbuff_init_from_buff(spif_mbuff_t self, spif_byteptr_t buff, sp
 __CPROVER_requires(__CPROVER_is_fresh(self, sizeof(*self)))
 __CPROVER_requires(FB_PRE(buff, len, size))
 __CPROVER_assigns(MBUFF_FRAME_INIT(self))
-__CPROVER_ensures(__CPROVER_return_value == TRUE)
-__CPROVER_ensures(MBUFF_POST(self))
-__CPROVER_ensures(self->parent.cls == SPIF_CLASS(__CPROVER_old(spif_mbuff_mbuffclass)))
-__CPROVER_ensures(self->len == FB_LEN(buff, len) && self->size == VMAX(size, self->len))
-__CPROVER_ensures(!(vg_k < (size_t) self->len) || self->buff[vg_k] == buff[vg_k])
+ENS(__CPROVER_return_value == TRUE)
+ENS_KF(MBUFF_POST(self))
+ENS(MBUFF_POST_ZEROBLOCK(self))
+ENS(self->parent.cls == SPIF_CLASS(__CPROVER_old(spif_mbuff_mbuffclass)))
+ENS(self->len == FB_LEN(buff, len) && self->size == VMAX(size, self->len))
+ENS(!(vg_k < (size_t) self->len) || self->buff[vg_k] == buff[vg_k])
 ;
 void harness(void)
 {
@@ -221,11 +266,12 @@ void harness(void)
 spif_mbuff_t spif_mbuff_new_from_buff(spif_byteptr_t buff, spif_memidx_t len, spif_memidx_t size)
 __CPROVER_requires(FB_PRE(buff, len, size))
 __CPROVER_assigns()
-__CPROVER_ensures(__CPROVER_is_fresh(__CPROVER_return_value, sizeof(*__CPROVER_return_value)))
-__CPROVER_ensures(MBUFF_POST(__CPROVER_return_value))
-__CPROVER_ensures(__CPROVER_return_value->len == FB_LEN(buff, len))
-__CPROVER_ensures(__CPROVER_return_value->size == VMAX(size, __CPROVER_return_value->len))
-__CPROVER_ensures(!(vg_k < (size_t) __CPROVER_return_value->len) || __CPROVER_return_value->buff[vg_k] == buff[vg_k])
+ENS(__CPROVER_is_fresh(__CPROVER_return_value, sizeof(*__CPROVER_return_value)))
+ENS_KF(MBUFF_POST(__CPROVER_return_value))
+ENS(MBUFF_POST_ZEROBLOCK(__CPROVER_return_value))
+ENS(__CPROVER_return_value->len == FB_LEN(buff, len))
+ENS(__CPROVER_return_value->size == VMAX(size, __CPROVER_return_value->len))
+ENS(!(vg_k < (size_t) __CPROVER_return_value->len) || __CPROVER_return_value->buff[vg_k] == buff[vg_k])
 ;
 void harness(void)
 {
